@@ -184,7 +184,11 @@ def run(rep):
     # flags reach build_converter under the right keywords
     bc = [c for c in walk_body(cp.node) if isinstance(c, ast.Call) and call_name(c) == 'build_converter']
     src = dict((norm(s.targets[0]), norm(s.value.value)) for s in lookups)
-    ok = len(bc) == 1 and src.get(norm(kwarg(bc[0], 'multi'))) == '_OP_ARITY_MAP' and src.get(norm(kwarg(bc[0], 'optional'))) == '_OP_OPTIONALITY_MAP'
+    from ..astutil import argn
+    bc_params = route.func('build_converter').params()
+    pos_of = lambda n: bc_params.index(n) if n in bc_params else None
+    ok = len(bc) == 1 and src.get(norm(argn(bc[0], 'multi', pos_of('multi')))) == '_OP_ARITY_MAP' and \
+        src.get(norm(argn(bc[0], 'optional', pos_of('optional')))) == '_OP_OPTIONALITY_MAP'
     rep.check('R05.b', fkey(cp, 'flags to build_converter'), ok, 'multi <- arity table, optional <- optionality table' if ok else
               'build_converter receives the flags crossed or from the wrong table', route, bc[0] if bc else cp.node)
     ok = kw.get('pattern') is not None and any(isinstance(s, ast.Assign) and norm(s.targets[0]) == kw['pattern'] and 'TYPE_PATT_MAP[' in norm(s.value) for s in stmts_of(cp.node)) and \
@@ -277,8 +281,9 @@ def run(rep):
     from .c07 import check_bound_regex
     check_bound_regex(rep, 'R05.d')
     m_st = [s for s in stmts_of(mp.node) if isinstance(s, ast.Assign) and isinstance(s.value, ast.Call) and norm(s.value.func) == 'self.regex.match']
+    from .common import implies_absent
     ok = len(m_st) == 1 and any(isinstance(r.value, ast.Constant) and r.value.value is None and
-                                has_cond(conds(mp, r), lambda t: norm(t) == norm(m_st[0].targets[0]), False) for r in returns_of(mp))
+                                implies_absent(conds(mp, r), norm(m_st[0].targets[0])) for r in returns_of(mp))
     rep.check('R05.d', fkey(mp, 'no match => None'), ok, 'a failed regex match returns None' if ok else 'match_path does not return None for a failed match', route, mp.node)
     ok = m_st and norm(m_st[0].value.args[0]) == mp.params()[1]
     rep.check('R05.d', fkey(mp, 'matches the path'), bool(ok), 'the compiled regex is matched against the given path' if ok else 'regex.match is not applied to the path', route, mp.node)
